@@ -1,5 +1,5 @@
 #![no_main]
-//! libFuzzer target for C12 / C13 / C14: bytes are decoded into a structured case (configuration,
+//! libFuzzer target for C12 / C13 / C14 / C01: bytes are decoded into a structured case (configuration,
 //! hasher family, RNG script, key universe, operation history) and run through the same oracles
 //! as the proptest-driven checks.
 use arbitrary::Unstructured;
@@ -13,7 +13,7 @@ static INIT: Once = Once::new();
 fuzz_target!(|data: &[u8]| {
     INIT.call_once(pdsverif::engine::install_panic_hook);
     let mut u = Unstructured::new(data);
-    let Ok(which) = u.int_in_range(0u8..=2) else { return };
+    let Ok(which) = u.int_in_range(0u8..=3) else { return };
     let verdict = match which {
         0 => match fuzzdecode::c12(&mut u) {
             Ok(c) => guarded_eval(&pdsverif::props::c12::C12, &c),
@@ -23,8 +23,12 @@ fuzz_target!(|data: &[u8]| {
             Ok(c) => guarded_eval(&pdsverif::props::c13::Random, &c),
             Err(_) => return,
         },
-        _ => match fuzzdecode::c14(&mut u) {
+        2 => match fuzzdecode::c14(&mut u) {
             Ok(c) => guarded_eval(&pdsverif::props::c14::Random, &c),
+            Err(_) => return,
+        },
+        _ => match fuzzdecode::c01(&mut u) {
+            Ok(c) => guarded_eval(&pdsverif::props::c01::C01, &c),
             Err(_) => return,
         },
     };
